@@ -285,62 +285,45 @@ def build_messages(B, rng, style, defs):
     return base, classes
 
 
-def run_messages(ctx, B, n_cases):
-    rng = ctx.rng
-    lines, cases = [], []
-    for _ in range(n_cases):
-        style = rng.choice(['itch', 'ouch', 'sqf'])
-        inds = rng.sample(range(256), rng.randint(1, 4))
-        defs = [(i, bc.gen_record_ty(rng, 'record', rng.randint(0, 2), 4)) for i in inds]
-        try:
-            base, classes = build_messages(B, rng, style, defs)
-        except Exception as e:  # noqa
-            ctx.violation(f'defining {style} messages raised {err_name(e)}', {'kind': 'msg-define', 'style': style, 'defs': sx([[i, t] for i, t in defs])})
-            continue
-        reg = [[i, k, body[1:]] for k, (i, body) in enumerate(defs)]
-        k = rng.randrange(len(defs))
-        ind, body = defs[k]
-        v = bc.gen_val(rng, body)
-        tail = gen_tail(rng)
-        rep = {'kind': 'msg', 'style': style, 'reg': sx(reg), 'cls': k, 'val': sx(v), 'tail': tail.hex()}
-        ctx.case(bc.short(f'msg {style} {sx(reg)} {k} {sx(v)}'), nontrivial=True, sample_every=53)
-        ctx.count('msg:' + style)
-        try:
-            msg = classes[k]()
-            rec = B.from_val(body, v, typed=True)
-            for name in list(rec.values):
-                setattr(msg, name, rec.values[name])           # message-level typed attributes
-            actual = bc.to_val(body, msg.record)
-            n, b = bc.guarded_call(msg.to_bytes)
-            if n != len(b):
-                ctx.violation(f'message: reported length {n} != {len(b)} bytes', rep)
-            outs = []
-            for data in (b + tail, bytearray(b + tail)):
-                m, dmsg = bc.guarded_call(lambda: base.from_bytes(data))
-                outs.append((m, dmsg))
-                if type(dmsg) is not classes[k]:
-                    ctx.violation(f'message decoded as {type(dmsg).__name__}, not the class that was encoded', rep)
-                elif m != len(b):
-                    ctx.violation(f'message decode consumed {m} of {len(b)} bytes', rep)
-                else:
-                    diff = bc.reads_differ(body, msg.record, dmsg.record)
-                    for name_idx, fty, _d in body[1:]:
-                        x, y = getattr(msg, f'f{name_idx}'), getattr(dmsg, f'f{name_idx}')
-                        diff = diff or bc.reads_differ(fty, x, y, f'msg.f{name_idx}')
-                    if diff:
-                        ctx.violation(f'message field reads back different: {diff}', rep)
-                    elif bc.guarded_call(dmsg.to_bytes) != (n, b):
-                        ctx.violation('re-encoding the decoded message gives different bytes', rep)
-            m, dmsg = outs[0]
-            got_enc = f'ok {n} {len(b)}'
-            # the body alone, as for directions the client cannot dispatch by type (OUCH incoming)
-            bm, brec = bc.guarded_call(lambda: classes[k].BodyRecord.from_bytes(b[1:] + tail))
-            if bm != len(b) - 1 or bc.reads_differ(body, msg.record, brec):
-                ctx.violation('BodyRecord.from_bytes on the message body does not return the encoded record', rep)
-        except Exception as e:  # noqa
-            ctx.violation(f'message round trip raised {err_name(e)}: {e!s:.80}', rep)
-            continue
-        # unknown indicator
+def message_case(B, style, defs, k, v, tail):
+    """run one message through the implementation.  Returns (failure description or None, observables or None);
+    observables = (n, byte count, consumed, decoded record val, actual record val, bytes)"""
+    inds = [i for i, _ in defs]
+    ind, body = defs[k]
+    try:
+        base, classes = build_messages(B, None, style, defs)
+    except Exception as e:  # noqa
+        return f'defining {style} messages raised {err_name(e)}', None
+    try:
+        msg = classes[k]()
+        rec = B.from_val(body, v, typed=True)
+        for name in list(rec.values):
+            setattr(msg, name, rec.values[name])           # message-level typed attributes
+        actual = bc.to_val(body, msg.record)
+        n, b = bc.guarded_call(msg.to_bytes)
+        b = bytes(b)
+        if n != len(b):
+            return f'message: reported length {n} != {len(b)} bytes', None
+        first = None
+        for data in (b + tail, bytearray(b + tail)):
+            m, dmsg = bc.guarded_call(lambda: base.from_bytes(data))
+            first = first or (m, dmsg)
+            if type(dmsg) is not classes[k]:
+                return f'message decoded as {type(dmsg).__name__}, not the class that was encoded', None
+            if m != len(b):
+                return f'message decode consumed {m} of {len(b)} bytes ({len(tail)} unrelated bytes follow)', None
+            diff = bc.reads_differ(body, msg.record, dmsg.record)
+            for name_idx, fty, _d in body[1:]:
+                x, y = getattr(msg, f'f{name_idx}'), getattr(dmsg, f'f{name_idx}')
+                diff = diff or bc.reads_differ(fty, x, y, f'msg.f{name_idx}')
+            if diff:
+                return f'message field reads back different: {diff}', None
+            if bc.guarded_call(dmsg.to_bytes) != (n, b):
+                return 're-encoding the decoded message gives different bytes', None
+        # the body alone, as for directions the client cannot dispatch by type (OUCH incoming)
+        bm, brec = bc.guarded_call(lambda: classes[k].BodyRecord.from_bytes(b[1:] + tail))
+        if bm != len(b) - 1 or bc.reads_differ(body, msg.record, brec):
+            return 'BodyRecord.from_bytes on the message body does not return the encoded record', None
         unknown = next(i for i in range(256) if i not in inds)
         try:
             bc.guarded_call(lambda: base.from_bytes(bytes([unknown]) + b[1:]))
@@ -348,10 +331,59 @@ def run_messages(ctx, B, n_cases):
         except Exception as e:  # noqa
             got_unknown = 'err ' + err_name(e)
         if got_unknown != 'err key':
-            ctx.violation(f'decoding an unregistered message id gave {got_unknown}', rep)
-        lines += [f'bin.msg.enc {sx(reg)} {k} {sx(actual)}', f'bin.rt {sx(body)} {sx(actual)} {sx(tail)}',
-                  f'bin.msg.dec {sx(reg)} {sx(bytes([unknown]) + b[1:])}']
-        cases.append((rep, got_enc, m, sx(bc.to_val(body, dmsg.record)), k))
+            return f'decoding an unregistered message id gave {got_unknown}', None
+        m, dmsg = first
+        return None, (n, len(b), m, sx(bc.to_val(body, dmsg.record)), actual, b, unknown)
+    except Exception as e:  # noqa
+        return f'message round trip raised {err_name(e)}: {e!s:.80}', None
+
+
+def msg_replay_dict(style, defs, k, v, tail):
+    reg = [[i, j, body[1:]] for j, (i, body) in enumerate(defs)]
+    return {'kind': 'msg', 'style': style, 'reg': sx(reg), 'cls': k, 'val': sx(v), 'tail': tail.hex()}
+
+
+def shrink_message(B, style, defs, k, v, tail):
+    """a single-class registry and a smaller body on which the message oracle still fails"""
+    ind, body = defs[k]
+    if message_case(B, style, [(ind, body)], 0, v, tail)[0] is None:
+        return defs, k, v
+    def fails(ty, val):
+        if kind(ty) != 'record' or not bc.in_domain(ty, bc.complete(ty, val)) or not bc.constructible(ty):
+            return False
+        return message_case(B, style, [(ind, ty)], 0, val, tail)[0] is not None
+    sty, sv = bc.shrink(body, bc.complete(body, v), fails, budget=120)
+    return [(ind, sty)], 0, sv
+
+
+def run_messages(ctx, B, n_cases):
+    rng = ctx.rng
+    lines, cases = [], []
+    for _ in range(n_cases):
+        if len(ctx.violations) >= 20:
+            break
+        style = rng.choice(['itch', 'ouch', 'sqf'])
+        inds = rng.sample(range(256), rng.randint(1, 4))
+        defs = [(i, bc.gen_record_ty(rng, 'record', rng.randint(0, 2), 4)) for i in inds]
+        k = rng.randrange(len(defs))
+        v = bc.gen_val(rng, defs[k][1])
+        tail = gen_tail(rng)
+        rep = msg_replay_dict(style, defs, k, v, tail)
+        ctx.case(bc.short(f'msg {style} {rep["reg"]} {k} {sx(v)}'), nontrivial=True, sample_every=53)
+        ctx.count('msg:' + style)
+        bad, obs = message_case(B, style, defs, k, v, tail)
+        if bad:
+            if len(ctx.violations) < 3:
+                d2, k2, v2 = shrink_message(B, style, defs, k, v, tail)
+                bad = message_case(B, style, d2, k2, v2, tail)[0] or bad
+                rep = msg_replay_dict(style, d2, k2, v2, tail)
+            ctx.violation(bad, rep)
+            continue
+        n, blen, m, dval, actual, b, unknown = obs
+        body = defs[k][1]
+        lines += [f'bin.msg.enc {rep["reg"]} {k} {sx(actual)}', f'bin.rt {sx(body)} {sx(actual)} {sx(tail)}',
+                  f'bin.msg.dec {rep["reg"]} {sx(bytes([unknown]) + b[1:])}']
+        cases.append((rep, f'ok {n} {blen}', m, dval, k))
     if ctx.driver.available and lines:
         ans = ctx.driver.ask(lines)
         for i, (rep, got_enc, m, dval, k) in enumerate(cases):
@@ -365,6 +397,12 @@ def run_messages(ctx, B, n_cases):
                 ctx.disagree(f'message body round trip: model {a_rt[:80]} vs implementation consumed={m} {dval[:60]}', rep)
             if a_unknown != 'err key':
                 ctx.disagree(f'bin.msg.dec unknown id: model {a_unknown[:60]}', rep)
+    # a message without fields (the spec parser accepts `<message>` without `<fields>`): known finding C01-record-empty
+    for style in ('itch', 'ouch', 'sqf'):
+        bad, _ = message_case(B, style, [(77, ['record'])], 0, ['r'], b'')
+        ctx.case(f'msg {style} no fields', nontrivial=True)
+        if bad:
+            report(ctx, bad, {'kind': 'record-empty', 'style': style, 'reg': '((77 0 ()))', 'cls': 0, 'val': '(r)', 'tail': ''})
 
 
 # ------------------------------------------------------------------ main
@@ -487,7 +525,7 @@ def run(ctx):
 
     if len(ctx.violations) >= 20:
         return
-    # ---- 2. truncated decoder input: each side truncates its own encoding; error class and consumed length are compared
+    # ---- 2. truncated decoder input: each side truncates its own encoding; success / error class is compared
     tlines, tgot, tmeta = [], [], []
     for src, ty, actual, tail, dom in metas[:: (3 if quick else 1)]:
         if not dom or src == 'wf':
@@ -498,13 +536,14 @@ def run(ctx):
             continue
         cut = rng.randrange(len(r[2]))
         d = bc.impl_decode(T, r[2][:cut])
-        tgot.append(f'ok {d[1]}' if d[0] == 'ok' else f'err {d[1]}')
+        tgot.append('ok' if d[0] == 'ok' else f'err {d[1]}')
         tlines.append(f'bin.trunc {sx(ty)} {sx(actual)} {cut}')
         tmeta.append({'kind': 'truncated', 'ty': sx(ty), 'val': sx(actual), 'cut': cut})
         ctx.case(f'trunc {cut} {bc.short(sx(ty), 80)}', nontrivial=True, sample_every=997)
         ctx.count('truncated:' + tgot[-1].split()[0])
     if ctx.driver.available and tlines:
         for a, g, rep in zip(ctx.driver.ask(tlines), tgot, tmeta):
+            a = 'ok' if a.startswith('ok ') else a         # how much a truncated input "consumes" depends on the layout: C02
             if a != g:
                 ctx.disagree(f'truncated input: model `{a}` vs implementation `{g}`', rep)
 
@@ -547,6 +586,15 @@ def replay(ctx, path):
     B = bc.Builder()
     ctx.case('replay ' + bc.short(json.dumps(rep)))
     ctx.case('replay-marker')
+    if rep.get('kind') in ('msg', 'record-empty') and 'reg' in rep:
+        from common import parse_sx
+        reg = parse_sx(rep['reg'])[0]
+        defs = [(int(i), ['record'] + [[int(n), bc.ty_from_parsed(t), bc.val_from_parsed(d)] for n, t, d in fs]) for i, _c, fs in reg]
+        bad, obs = message_case(B, rep['style'], defs, int(rep['cls']), bc.parse_val(rep['val']), bytes.fromhex(rep.get('tail', '')))
+        print('oracle:', bad or 'holds', '' if obs is None else obs[:4])
+        if bad:
+            report(ctx, bad, rep)
+        return
     if 'ty' not in rep:
         print('nothing to replay in', path)
         return
